@@ -342,12 +342,37 @@ LH_NOISE_CORPUS = [[9, [[-2, -1, 2, 1, -1], [2, -1, -2, -2, -1], [1, 2, -2, 1, 2
   [6]]]
 
 
+
+def warm_up(ctx, thorough):
+    """compile / load every jitted kernel once, retrying races on the shared on-disk Numba cache (OSError), so that they
+    cannot surface later as spurious exceptions of the function under test"""
+    import time as _time
+    from quantecon.game_theory import NormalFormGame, Player, lemke_howson, support_enumeration, vertex_enumeration, pure_nash_brute
+
+    def tries(f):
+        for attempt in range(6):
+            try:
+                return f()
+            except OSError as e:
+                ctx.count("numba_cache_race_retried:%s" % type(e).__name__)
+                _time.sleep(0.4 * (attempt + 1))
+        return f()
+    for dt in [np.float64, np.int64] + ([np.float32, np.int32] if thorough else []):
+        A = np.array([[3, 0], [0, 2]], dtype=dt)
+        g = NormalFormGame((Player(A), Player(A.copy())))
+        tries(lambda: lemke_howson(g, init_pivot=1, capping=2, full_output=True))
+        tries(lambda: support_enumeration(g))
+        tries(lambda: pure_nash_brute(g))
+    tries(lambda: vertex_enumeration(NormalFormGame((Player(np.eye(2)), Player(np.eye(2))))))
+
+
 def run(ctx):
     from quantecon.game_theory import NormalFormGame, Player, lemke_howson, support_enumeration, vertex_enumeration, pure_nash_brute
     from quantecon.game_theory.vertex_enumeration import _BestResponsePolytope, _ints_arr_to_bits
     thorough = ctx.tier == "thorough"
     rng = ctx.rng
     ctx.proofs(["C05/Props.v", "C04/PropsTie.v"])
+    warm_up(ctx, thorough)
     TOL = frac(Player([1.0, 2.0]).tol)
     smax = 5 if thorough else 4
     shapes = [(m, n) for m in range(1, smax + 1) for n in range(1, smax + 1)]
